@@ -288,6 +288,10 @@ def _validate_shard(cx, name, shard_no, lines, idx, trace_module, trace_cfg, tim
             n_ev += last_line - first_line + 1
             break
         m = re.search(r'"REJECTED at line", (\d+), "of", (\d+)', out)
+        if not m and rounds <= 2:
+            log("[tv] TLC gave no verdict (machine overloaded?), trying once more")
+            time.sleep(2)
+            continue
         if not m:
             raise Machinery("trace validation failed without a verdict (spec error?):\n" + tail_of(out))
         hw = int(m.group(1)) + first_line - 1   # absolute line number
